@@ -102,6 +102,7 @@ def run_case(case):
             recorded.append({"tmpl": template_nodes(job.mapping), "symbols": list(symbols), "symbolic": dict(symbolic_df),
                              "per_mem": dict(per_mem), "usage": dict(usage_df), "keep": list(cur.get("keep", [])),
                              "loop_groups": list(cur.get("loop_groups", [])),
+                             "track_only": [str(x) for x in getattr(job, "memories_track_pmappings_only", [])],
                              "df": df.copy(), "einsum": str(job.einsum_name), "ranks": dict(job.rank_variable_bounds)})
         except Exception as ex:
             bump("recorder_failed:" + type(ex).__name__)
@@ -132,13 +133,20 @@ def run_case(case):
             continue
         import sympy
         df = rec["df"]
-        cols = [c for c in df.columns if c.startswith("Total" + H.SEP) or c.startswith("reservation" + H.SEP)]
+        # objective vector: the Total columns the frame carries plus, per memory that is tracked as an objective, its
+        # usage formula (the granularity at which tile-shape exploration itself prunes; reservations of memories
+        # tracked for validity only are no objective of this template's filter)
+        cols = [c for c in df.columns if c.startswith("Total" + H.SEP)]
         src = {}
         for c in cols:
             if c in rec["symbolic"]:
                 src[c] = sympy.sympify(rec["symbolic"][c])
         if "Total<SEP>energy" in cols and "Total<SEP>energy" not in src:
             src["Total<SEP>energy"] = sympy.sympify(rec["symbolic"]["Total<SEP>dynamic_energy"]) + sympy.sympify(rec["symbolic"].get("Total<SEP>leak_energy", 0))
+        for k, v in rec["per_mem"].items():
+            if k.split(H.SEP)[-1] not in rec.get("track_only", []):
+                cols.append(k)
+                src[k] = sympy.sympify(v)
         if set(src) != set(cols):
             bump("templates_with_unmapped_columns")
             continue
@@ -196,8 +204,10 @@ def run_case(case):
                 if not at_capacity[i]:
                     ex_groups_strict.setdefault(tuple(a[k] for k in keep), []).append(tuple(float(vals[c][i]) for c in cols))
         df_groups = {}
-        for _, row in df.iterrows():
-            df_groups.setdefault(tuple(int(row[k]) for k in keep), []).append(tuple(float(row[c]) for c in cols))
+        rows_arr = np.array([[float(row[nm]) for nm in names] for _, row in df.iterrows()], dtype=NUMPY_FLOAT_TYPE).reshape(len(df), len(names))
+        row_vals = {c: np.broadcast_to(np.asarray(comp[c](*rows_arr.T), dtype=float), (len(rows_arr),)) for c in cols}
+        for i, (_, row) in enumerate(df.iterrows()):
+            df_groups.setdefault(tuple(int(row[k]) for k in keep), []).append(tuple(float(row_vals[c][i]) for c in cols))
         bump("templates_compared")
         n_valid = sum(len(v) for v in ex_groups.values())
         ex_front = {g: front(v) for g, v in ex_groups.items()}
